@@ -1,42 +1,14 @@
-import Generated.Facts
+import Props.FactsRing
+import Props.FactsLimits
+import Props.FactsRecorderConfig
+import Props.FactsReset
+import Props.FactsGates
+import Props.FactsFFC
+import Props.FactsTestRec
+import Props.FactsLog
 /-!
 # Source facts the processor / detector / limiter theorems rely on
 
-`Generated.Facts` is rewritten from /repo's current source on every check; these theorems
-re-open as proof obligations whenever the extracted text changes.
+`Generated.Facts` is rewritten from /repo's current source on every check; the theorems of the imported modules
+(namespace `TR.FactsProc`, one module per concern) re-open as proof obligations whenever the extracted text changes.
 -/
-namespace TR.FactsProc
-open Facts
-
-/-- C01/C02: the pre-trigger ring holds preview-secs*fps + trigger-frames frames (the `K` of the model) -/
-theorem ring_capacity_expr :
-    ringSizeExpr = "NewFrameLoop(recorderConf.PreviewSecs*c.FPS()+motionConf.TriggerFrames, c)" := by decide
-
-/-- C03: the limits are min-secs*fps and max-secs*fps (`minF`, `maxF` of the model) -/
-theorem limits_expr : minFramesExpr = "recorderConf.MinSecs * c.FPS()" ∧ maxFramesExpr = "recorderConf.MaxSecs * c.FPS()" := by
-  decide
-
-/-- C03/C04: `recorder.NewConfig` builds the recording window from start-recording / stop-recording and the
-location, copies min/max/preview-secs unchanged and rejects max-secs < min-secs -/
-theorem recorder_config_wiring :
-    windowCtorArgs = "windowsConfig.StartRecording;windowsConfig.StopRecording;float64(windowLocationConfig.Latitude);float64(windowLocationConfig.Longitude)" ∧
-    recorderConfigFields = "MinSecs:thermalRecorderConfig.MinSecs;MaxSecs:thermalRecorderConfig.MaxSecs;PreviewSecs:thermalRecorderConfig.PreviewSecs;Window:*w;ConstantRecorder:thermalRecorderConfig.ConstantRecorder" ∧
-    recorderConfigValidate = "conf.MaxSecs < conf.MinSecs" := ⟨rfl, rfl, rfl⟩
-
-/-- C09/C15: a camera reset ends the recording in progress and then restarts the detector unconditionally -/
-theorem processor_reset_body : processorResetBody = "mp.stopRecording();mp.motionDetector.Reset(camera)" := rfl
-
-/-- C04: the window is consulted in `canStartWriting`, the run counter is compared with trigger-frames -/
-theorem gates_expr : windowGate = "!mp.window.Active()" ∧ triggerTest = "mp.triggered < mp.triggerFrames" := by decide
-
-/-- C09: frames within 10 s after an FFC are "affected" -/
-theorem ffc_period : ffcPeriodNs = 10 * 1000000000 ∧ ffcTest = "f.Status.TimeOn-f.Status.LastFFCTime < ffcPeriod" := by decide
-
-/-- C17: a test recording is `testRecLast + 1 = 21` frames; the continuous file is cut after maxFrames+1 -/
-theorem test_recording_length : testRecLast + 1 = 21 ∧ testRecStopTest = "mp.snapshotFrames > 20" ∧
-    constRecStopTest = "mp.crFrames > mp.maxFrames" := by decide
-
-/-- C20: the processor's limiter uses a one-minute interval -/
-theorem log_interval : minLogIntervalNs = 60 * 1000000000 ∧ processorLogInit = "loglimiter.New(minLogInterval)" := by decide
-
-end TR.FactsProc
